@@ -445,6 +445,17 @@ pub fn run_e1(ctx: &Ctx, prop: P) -> i32 {
                     let case = plan[f].fam.get(idx);
                     let cfgs: Vec<RunCfg> = plan[f].cfgs.iter().map(|c| prop.shape(c.1.clone())).collect();
                     if prop_id == "C04" {
+                        // executed once more, alone on a fresh thread with a generous limit: only an
+                        // execution that still does not come back is reported
+                        let (c2, cfgs2) = (case.clone(), cfgs.clone());
+                        if finishes_within(300, move || {
+                            for cfg in &cfgs2 {
+                                let _ = run_case(&c2.u, &c2.p, cfg);
+                            }
+                        }) {
+                            eprintln!("NOTE: an execution exceeded the wall limit at family {f} index {idx} but finishes when run again alone (machine overloaded?); not a verdict");
+                            return None;
+                        }
                         Some(Violation {
                             property: prop_id.clone(),
                             signature: "nontermination".into(),
@@ -551,6 +562,40 @@ pub fn run_e1(ctx: &Ctx, prop: P) -> i32 {
         total_transitions += acc.evaluations;
         eprintln!("[C08] F8b under completion orders x hint patterns: {} cases, {} schedules, {:.1}s", acc.get("cases"), acc.get("schedules"), ctx.t0.elapsed().as_secs_f64());
         rep.push("F8b x hint patterns x completion orders (controlled executor)", acc, true, famb.len());
+    }
+    if prop == P::C04 {
+        // termination without panicking also for providers that use the SolverCache from inside
+        // sort_candidates, under completion orders of the provider's answers
+        let q = ctx.tier == Tier::Quick;
+        let fam = Decorated::new("F3 skeletons", skeletons(), 1, false, &|d| !matches!(d, Deco::Soft(_)));
+        let plans: Vec<AsyncPlan> = [SortCallback::DepsOfSorted, SortCallback::CandsOfMentioned]
+            .into_iter()
+            .map(|cb| AsyncPlan { sort_cb: cb, hint_mask: None, mask: K_CANDS | K_DEPS, pairs: false, hint: None, complete_cap: if q { 120 } else { 3000 }, dev_bound: if q { 1 } else { 2 }, dev_cap: if q { 120 } else { 3000 } })
+            .collect();
+        let opts = SweepOpts {
+            threads: threads(),
+            wall_limit_s: 120,
+            on_stuck: Box::new(|f, idx| {
+                eprintln!("NOTE: C04 async exploration stuck at {f}/{idx}");
+                None
+            }),
+            fam_no: 93,
+            stride: 1,
+            offset: 0,
+        };
+        let acc = sweep(&fam, &opts, &|idx, case, acc| {
+            if !is_wellformed(case) {
+                return;
+            }
+            acc.count("cases");
+            for (pi, pl) in plans.iter().enumerate() {
+                e2::check_c10_c11("C04", case, pl, (93, idx, pi as u32), acc);
+            }
+        });
+        total_states += acc.get("cases");
+        total_transitions += acc.evaluations;
+        eprintln!("[C04] F3 skeletons with re-entrant sort_candidates under completion orders: {} cases, {} schedules, {:.1}s", acc.get("cases"), acc.get("schedules"), ctx.t0.elapsed().as_secs_f64());
+        rep.push("F3 skeletons (<= 1 decoration) x providers that call the SolverCache from sort_candidates x completion orders (controlled executor)", acc, true, fam.len());
     }
     if prop == P::C07 {
         // union requirements under every completion order of the candidate / dependency requests
@@ -732,13 +777,13 @@ pub fn replay(path: &str) -> i32 {
                 }
                 let _ = tx.send(());
             });
-            match rx.recv_timeout(std::time::Duration::from_secs(30)) {
+            match rx.recv_timeout(std::time::Duration::from_secs(300)) {
                 Ok(()) => {
                     println!("replay: terminates");
                     0
                 }
                 Err(_) => {
-                    println!("replay: still does not terminate within 30 s");
+                    println!("replay: still does not terminate within 300 s");
                     println!("VIOLATION property={prop} replay={path}");
                     1
                 }
@@ -782,10 +827,16 @@ pub fn show(path: &str) {
 // E2 / E3 / E4 plans (C10 - C13)
 // ---------------------------------------------------------------------------
 
-fn generic_stuck(prop: String, fams: std::sync::Arc<Vec<(Box<dyn Family>, u64)>>) -> Box<dyn Fn(usize, u64) -> Option<Violation> + Sync + Send> {
+fn generic_stuck(prop: String, fams: std::sync::Arc<Vec<(Box<dyn Family>, u64)>>, recheck: std::sync::Arc<dyn Fn(&Case) + Send + Sync>) -> Box<dyn Fn(usize, u64) -> Option<Violation> + Sync + Send> {
     Box::new(move |f, idx| {
         let case = fams[f].0.get(idx);
         if prop == "C10" || prop == "C13" {
+            // explored once more, alone on a fresh thread with a generous limit, before it is reported
+            let (c2, r2) = (case.clone(), recheck.clone());
+            if finishes_within(900, move || r2(&c2)) {
+                eprintln!("NOTE: the exploration of family {f} index {idx} exceeded the wall limit but finishes when run again alone (machine overloaded?); not a verdict");
+                return None;
+            }
             Some(Violation {
                 property: prop.clone(),
                 signature: "nontermination".into(),
@@ -885,7 +936,27 @@ pub fn run_e2(ctx: &Ctx) -> i32 {
         let opts = SweepOpts {
             threads: threads(),
             wall_limit_s: 120,
-            on_stuck: generic_stuck(prop.clone(), fams.clone()),
+            on_stuck: generic_stuck(prop.clone(), fams.clone(), {
+                let plans = plans.clone();
+                let prop = prop.clone();
+                std::sync::Arc::new(move |case: &Case| {
+                    let mut acc = Acc::default();
+                    match prop.as_str() {
+                        "C10" => {
+                            for plan in plans.iter() {
+                                e2::check_c10_c11("C10", case, plan, (0, 0, 0), &mut acc);
+                            }
+                        }
+                        "C13" => {
+                            e2::check_c13_sync(case, None, if q { 2 } else { 3 }, true, (0, 0, 0), &mut acc);
+                            e2::check_c13_sync(case, Some(Hint::All), 2, !q, (0, 0, 0), &mut acc);
+                            let p = AsyncPlan { complete_cap: if q { 30 } else { 300 }, dev_bound: 1, dev_cap: if q { 30 } else { 300 }, ..plans[0].clone() };
+                            e2::check_c13_async(case, &p, (0, 0, 0), &mut acc);
+                        }
+                        _ => {}
+                    }
+                })
+            }),
             fam_no: fi,
             stride: *stride,
             offset: if *stride > 1 { ctx.seed % *stride } else { 0 },
